@@ -109,6 +109,41 @@ def w_frag_random(ops, rng, n):
         op_a(ops, s)
 
 
+def w_structured(ops, rng, n):
+    """exhaustive small products over the structured parts of the fragment, where defects are PAIR / TRIPLE facts:
+    Hangul jamo and syllables at the boundaries of the L / V / T ranges (composition arithmetic), base letters with
+    every ordering of two marks (canonical reordering + composition + the 'already NFC' shortcut), and each of them
+    next to an ASCII letter and inside a second label"""
+    def fr(lo, hi):
+        return [chr(c) for c in idna_frag.FRAG if lo <= c <= hi]
+    L, V, T = fr(0x1100, 0x1113), fr(0x1161, 0x1176), fr(0x11A7, 0x11C3)
+    S = fr(0xAC00, 0xD7A3)
+    seen = set()
+
+    def emit(s):
+        if s not in seen:
+            seen.add(s)
+            op_a(ops, s)
+    for l in L:
+        for v in V:
+            emit(l + v)
+            for t in T + ['a', S[0]]:
+                emit(l + v + t)
+                emit('x' + l + v + t + '.' + l + v)
+    for sy in S:
+        for t in T + V + L:
+            emit(sy + t)
+            emit(sy + t + t)
+    bases = [chr(c) for c in idna_frag.FRAG if idna_frag.TAB[c]['ccc'] == 0 and idna_frag.TAB[c]['status'] in 'VD'
+             and idna_frag.TAB[c]['bidi'] == 'L' and c < 0x1100] + ['a', 'e']
+    for b in bases:
+        for m1 in MARKS:
+            emit(b + m1)
+            for m2 in MARKS:
+                emit(b + m1 + m2)
+                emit('x.' + b + m1 + m2 + 'y')
+
+
 def w_wpt_inputs(ops, rng, n):
     """the inputs of the WPT IDNA vectors on the real code: spec comparison inside the
     fragment, C16 laws on all of them"""
